@@ -6,7 +6,7 @@ Line protocol of the Validate model.
 
   validate reset in  <allowed> <check> <schema> <initdef>
   validate reset exp <allowed> <check> <schema> <initdef> <expired> <duration>
-  validate init <restored|->
+  validate init <restored|->              (InputExp: `-` or `R|<state>|<remaining s|->|<input|->`)
   validate put <value>
   validate wait <d>
   validate mutate clear | add <v> | remove <v>      (the caller changes ITS collection object)
@@ -21,7 +21,7 @@ namespace Edzed.Validate
 inductive Blk where
   | none
   | inp (w : World) (initdef : Val)
-  | exp0 (c : Cfg) (inp : Option Val) (expired : Val) (dur : Nat) (caller : Option (List Val))
+  | exp0 (c : Cfg) (inp : Option Val) (expired : Val) (dur : Option Nat) (caller : Option (List Val))
   | exp (w : ExpWorld)
 
 structure DState where
@@ -111,6 +111,21 @@ def stStr : St → String
 def expStr (s : ExpState) : String :=
   "st=" ++ stStr s.st ++ " out=" ++ s.out.render ++ " val=" ++ optStr s.value
 
+/-- `inf` or a number of seconds -/
+def parseDur (d : String) : Option (Option Nat) :=
+  if d == "inf" then some none else d.toNat?.map some
+
+/-- the saved state of a persistent InputExp: `-` (none) or `R|<valid|expired>|<remaining s or ->|<input or ->` -/
+def parseSaved (r : String) : Option (Option SavedExp) :=
+  if r == "-" then some none
+  else match r.splitOn "|" with
+    | ["R", st, rem, inp] => do
+      let st ← (if st == "valid" then some St.valid else if st == "expired" then some St.expired else none)
+      let rem ← (if rem == "-" then some none else rem.toInt?.map some)
+      let inp ← (if inp == "-" then some none else (Val.parse inp).map some)
+      pure (some ⟨st, rem, inp⟩)
+    | _ => none
+
 def handle (s : DState) : List String → DState × String
   | ["reset", "in", a, c, sc, i] =>
     match parseCfg a c sc, Val.parse i with
@@ -121,7 +136,7 @@ def handle (s : DState) : List String → DState × String
       | (.error e, cl) => ({ blk := .none }, errStr e ++ callsStr cl)
     | _, _ => (s, "bad-op")
   | ["reset", "exp", a, c, sc, i, x, d] =>
-    match parseCfg a c sc, Val.parse i, Val.parse x, d.toNat? with
+    match parseCfg a c sc, Val.parse i, Val.parse x, parseDur d with
     | some cfg, some i, some x, some d =>
       match constructExp cfg i x with
       | (.ok (inp, e), cl) =>
@@ -141,11 +156,13 @@ def handle (s : DState) : List String → DState × String
         | (.abort, cl) => ({ blk := .none }, "err Abort" ++ callsStr cl)
       | none => (s, "bad-op")
     | .exp0 cfg inp e d caller =>
-      if r != "-" then (s, "bad-op") else
-      let ec : ExpCfg := ⟨cfg, d, e⟩
-      match initExp ec inp with
-      | some st => ({ blk := .exp ⟨ec, st, caller⟩ }, "ok " ++ expStr st)
-      | none => ({ blk := .none }, "err NotInitialized")
+      match parseSaved r with
+      | none => (s, "bad-op")
+      | some saved =>
+        let ec : ExpCfg := ⟨cfg, d, e⟩
+        match startExp ec inp saved with
+        | (some st, cl) => ({ blk := .exp ⟨ec, st, caller⟩ }, "ok " ++ expStr st ++ callsStr cl)
+        | (none, cl) => ({ blk := .none }, "err NotInitialized" ++ callsStr cl)
     | _ => (s, "bad-op")
   | ["put", v] =>
     match Val.parse v, s.blk with
